@@ -290,4 +290,14 @@ def sib_var_slot(ctx, prog):
 
 sib_var_slot.rule_id = "C07.SIB-var-slot"
 
-RULES = [guard_read, wmw_value, wmw_inuse, tyg_by_value, sib_var_slot, dom_status_first]
+def dtab_api(ctx, prog):
+    """value_inner: a Created observer (not yet through a stabilise) answers NeverStabilised whatever its node
+    already holds. Same table as C10.DTAB-api."""
+    from .engine import run_relabelled
+    from .c10 import dtab_api as f
+    run_relabelled(ctx, prog, f, "C10.DTAB-api", "C07.DTAB-api")
+
+
+dtab_api.rule_id = "C07.DTAB-api"
+
+RULES = [guard_read, wmw_value, wmw_inuse, tyg_by_value, sib_var_slot, dom_status_first, dtab_api]
